@@ -21,18 +21,39 @@ RULE = (
     "defaults, *args: T, **kwargs: T, instance/class/static methods, __init__ constructors, dataclass, NamedTuple, "
     "generic helpers (T, list[T], dict[K, V], Callable[[T], U], bounded and constrained TypeVars); arguments: members "
     "and near-miss non-members from the universe U (literal displays only), by position and by keyword, defaults "
-    "omitted. Non-trivial = all memberships decided; distinct by (callable kind, parameter type constructors, argument "
-    "sources); both verdicts counted per callable kind."
+    "omitted. Constructors also through a typed __new__ and through a pass-through __new__(cls, *args, **kwargs) in "
+    "front of a typed __init__. GENERATED generics (kind generic-gen): 1-3 parameters over one type variable (free T, "
+    "bound TN: float, constrained TC: (int, str)) in the forms T / List[T] / Sequence[T] / Optional[T] / Tuple[T, int] / "
+    "Dict[str, T] or a plain int/str, 0-2 trailing parameters with defaults (positional or keyword-only), the result "
+    "(T, Optional[T], List[T] or Tuple[T, ...]) built from EVERY parameter that mentions the variable, preferring the "
+    "defaulted one; calls pass or omit each defaulted parameter, by position or keyword, so the variable is solved from "
+    "passed arguments, omitted defaults, or both. STAR calls (kind starcall): 1-3 positional parameters (any suffix "
+    "with defaults, optionally positional-only) and optionally *rest, over class-based types (plus Literal types for "
+    "callables only called with short star items); the call is 0-n explicit positionals, then one *-item: a tuple / "
+    "list display of 0-2 elements, a short str / bytes / range, or (when *rest exists) a str / bytes / range of 1000-2000 "
+    "items that pyanalyze does not expand element by element, then sometimes one more positional. Non-trivial = all "
+    "memberships decided; distinct by (callable kind, parameter type constructors, argument sources); both verdicts "
+    "counted per callable kind."
 )
 ASSUMPTIONS = [
     "vp.ty.member is the oracle for argument membership; CPython executes the call for the result clause",
     "calls are generated to bind (binding itself is C05's subject); calls that fail to bind at run time are skipped",
     "for generic callables the argument clause is judged against the parameter type with type variables erased to "
     "their bound / constraints / object; the result clause is judged exactly",
+    "generic-gen: a diagnostic is not judged (only the result clause is) when one type variable has several sources "
+    "through an invariant container or is a constrained variable with several sources - the statement allows an "
+    "'incompatible solution' error there",
+    "starcall: the expectation comes from CPython's binder (inspect.signature(callee).bind on the evaluated arguments) "
+    "plus the membership oracle on every bound value; defaults left alone are not arguments; callables that receive "
+    ">= 1000-item star items use class-based parameter types only, since pyanalyze knows such elements by class only",
 ]
 FLOORS = {
-    "quick": {"distinct_nontrivial": 8000, "calls_judged": 10000, "expect_error": 3000, "expect_clean": 3000, "results_checked": 3000},
-    "thorough": {"distinct_nontrivial": 60000, "calls_judged": 80000, "results_checked": 25000},
+    "quick": {"distinct_nontrivial": 8000, "calls_judged": 10000, "expect_error": 3000, "expect_clean": 3000, "results_checked": 3000,
+              "generic_gen_results_checked": 1400, "generic_gen_results_with_omitted_default": 330,
+              "starcall_judged": 1500, "starcall_long_judged": 330, "starcall_long_expect_error": 240},
+    "thorough": {"distinct_nontrivial": 60000, "calls_judged": 80000, "results_checked": 25000,
+                 "generic_gen_results_checked": 5600, "generic_gen_results_with_omitted_default": 1300,
+                 "starcall_judged": 6000, "starcall_long_judged": 1300, "starcall_long_expect_error": 960},
 }
 CODES = {"incompatible_argument", "incompatible_call"}
 BATCH = 150
@@ -105,7 +126,7 @@ def ret_for(rng, params, style):
 
 def gen_callable(rng, k: int) -> Callable_:
     style = rng.randrange(2)
-    kind = rng.choice(["plain", "plain", "plain", "default", "kwonly", "star", "dstar", "method", "classmethod", "staticmethod", "init", "dataclass", "namedtuple", "posonly-dstar", "bad-default"])
+    kind = rng.choice(["plain", "plain", "plain", "default", "kwonly", "star", "dstar", "method", "classmethod", "staticmethod", "init", "dataclass", "namedtuple", "posonly-dstar", "bad-default", "new", "new+init"])
     n = rng.randrange(1, 4)
     ptypes = [rng.choice(PARAM_TYPES) for _ in range(n)]
     pnames = [f"p{i}" for i in range(n)]
@@ -164,6 +185,17 @@ def gen_callable(rng, k: int) -> Callable_:
         body = [f"        self.{p} = {p}" for p, _ in params]
         lines = [f"class K{k}:", f"    def __init__(self, {sig}) -> None:"] + body
         return Callable_(kind, f"K{k}", lines, f"K{k}", meta, f"K{k}")
+    if kind == "new":
+        # the constructor signature lives on a typed __new__
+        body = [f"        self.{p} = {p}" for p, _ in params]
+        lines = [f"class K{k}:", f"    def __new__(cls, {sig}):", "        self = super().__new__(cls)"] + body + ["        return self"]
+        return Callable_(kind, f"K{k}", lines, f"K{k}", meta, f"K{k}")
+    if kind == "new+init":
+        # a pass-through __new__(cls, *args, **kwargs) in front of a typed __init__: CPython hands the same arguments to both
+        body = [f"        self.{p} = {p}" for p, _ in params]
+        lines = [f"class K{k}:", "    def __new__(cls, *args, **kwargs):", "        return super().__new__(cls)",
+                 f"    def __init__(self, {sig}) -> None:"] + body
+        return Callable_(kind, f"K{k}", lines, f"K{k}", meta, f"K{k}")
     if kind == "dataclass":
         fields = [f"    {part}" for part in parts if part != "*"]
         lines = ["@dataclasses.dataclass", f"class K{k}:"] + fields
@@ -180,6 +212,7 @@ import dataclasses
 TB = TypeVar("TB", bound=A)
 TC = TypeVar("TC", int, str)
 U_ = TypeVar("U_")
+TN = TypeVar("TN", bound=float)
 def g_ident(x: T) -> T:
     return x
 def g_first(xs: List[T]) -> T:
@@ -308,10 +341,308 @@ def gen_generic_calls(rng, n: int) -> list:
     return calls
 
 
-def check_batch(ctx, callables, calls) -> None:
+# ---------------------------------------------------------------------------
+# GENERATED TypeVar-generic callables (kind "generic-gen"): the same type variable on several parameters in several
+# positions (bare, inside containers), any of them with a default the call may omit; the result is built from ALL
+# parameters that mention the variable, so a solution that forgets one source (an omitted default, a keyword-only
+# parameter, an element of a container) is seen by the result clause.
+
+TYPEVARS = {"T": ty.OBJECT, "TN": F, "TC": ty.Union(I, S)}  # name -> erasure (object / bound / constraints)
+TV_DEFAULTS = {"T": ["'d'", "None", "0.5", "0", "()"], "TN": ["0.5", "0", "True"], "TC": ["'d'", "0"]}
+# (annotation template, erasure builder, default builder from an element literal, expression listing the T-values held)
+GFORMS = [
+    ("{v}", lambda e: e, lambda d: d, "[{p}]"),
+    ("List[{v}]", lambda e: ty.List(e), lambda d: f"[{d}]", "list({p})"),
+    ("Sequence[{v}]", lambda e: ty.Seq(e), lambda d: f"({d},)", "list({p})"),
+    ("Optional[{v}]", lambda e: ty.Union(e, NONE), lambda d: d, "([] if {p} is None else [{p}])"),
+    ("Tuple[{v}, int]", lambda e: ty.Tuple(e, I), lambda d: f"({d}, 0)", "[{p}[0]]"),
+    ("Dict[str, {v}]", lambda e: ty.Dict(S, e), lambda d: "{'k': " + d + "}", "list({p}.values())"),
+]
+GFORM_WEIGHTS = [6, 2, 1, 2, 1, 1]
+
+
+def gen_generic_callable(rng, k: int) -> Callable_:
+    v = rng.choice(["T", "T", "T", "TN", "TC"])
+    erased = TYPEVARS[v]
+    n = rng.randrange(1, 4)
+    n_def = rng.choice([0, 1, 1, 1, 2]) if n > 1 else rng.choice([0, 1])
+    n_def = min(n_def, n)
+    kwonly_from = n - n_def if (n_def and rng.random() < 0.35) else None  # the defaulted parameters are keyword-only
+    parts, meta, holders = [], [], []
+    bare = []
+    for i in range(n):
+        p = f"p{i}"
+        if rng.random() < 0.85 or i == 0:
+            fi = rng.choices(range(len(GFORMS)), GFORM_WEIGHTS)[0]
+            if v != "T" and fi in (1, 5) and rng.random() < 0.5:
+                fi = 0
+            tmpl, era, dflt, held = GFORMS[fi]
+            ann, t = tmpl.format(v=v), era(erased)
+            holders.append(held.format(p=p))
+            if fi == 0:
+                bare.append(p)
+            d_src = dflt(rng.choice(TV_DEFAULTS[v]))
+            if fi == 3 and rng.random() < 0.5:
+                d_src = "None"
+            mentions = True
+        else:
+            t = rng.choice([I, S])
+            ann = ty.render(t, 0)
+            d_src = "0" if t is I else "''"
+            mentions = False
+        has_default = i >= n - n_def
+        if kwonly_from is not None and i == kwonly_from:
+            parts.append("*")
+        parts.append(f"{p}: {ann} = {d_src}" if has_default else f"{p}: {ann}")
+        meta.append((p, t, has_default, kwonly_from is not None and i >= kwonly_from, mentions))
+    r = rng.random()
+    if bare and r < 0.45:
+        # the LAST bare parameter: the defaulted one when there is one
+        ret_ann, ret_expr = v, (bare[-1] if rng.random() < 0.7 else rng.choice(bare))
+    elif bare and r < 0.55:
+        ret_ann, ret_expr = f"Optional[{v}]", bare[-1]
+    elif r < 0.8:
+        ret_ann, ret_expr = f"List[{v}]", "[" + ", ".join("*" + h for h in holders) + "]"
+    else:
+        ret_ann, ret_expr = f"Tuple[{v}, ...]", "tuple([" + ", ".join("*" + h for h in holders) + "])"
+    lines = [f"def gg{k}({', '.join(parts)}) -> {ret_ann}:", f"    return {ret_expr}"]
+    c = Callable_("generic-gen", f"gg{k}", lines, f"gg{k}", [(p, t, d, ko) for p, t, d, ko, _m in meta], ret_ann, generic=True)
+    c.mentions = {p: m for p, _t, _d, _ko, m in meta}
+    c.typevar = v
+    c.invariant = any(("List[" in part or "Dict[" in part) for part in parts)
+    c.multi = any(("List[" in part or "Dict[" in part or "Sequence[" in part) for part in parts)  # one argument, several sources
+    return c
+
+
+def gen_generic_gen_calls(rng, c: Callable_, n: int) -> list:
+    calls = []
+    for _ in range(n):
+        bad_slot = rng.randrange(len(c.params)) if rng.random() < 0.25 else -1
+        args, kwargs, verdicts, srcs = [], [], [], []
+        omitted_default_mentions = 0
+        passed_mentions = 0
+        skipped = False
+        for i, (p, t, has_default, kwonly) in enumerate(c.params):
+            if has_default and rng.random() < 0.6 and i != bad_slot:
+                omitted_default_mentions += c.mentions[p]
+                skipped = True  # everything after an omitted parameter has to be passed by keyword
+                continue
+            items = literal_items(t, rng, i != bad_slot, 4) or literal_items(t, rng, True, 4)
+            if not items:
+                break
+            it = rng.choice(items)
+            verdicts.append(ty.member(it.obj, t))
+            srcs.append(it.src)
+            passed_mentions += c.mentions[p]
+            if kwonly or kwargs or skipped or rng.random() < 0.2:
+                kwargs.append(f"{p}={it.src}")
+            else:
+                args.append(it.src)
+        else:
+            if any(x is None for x in verdicts):
+                expected = None
+            elif any(x is False for x in verdicts):
+                expected = True
+            elif (passed_mentions + omitted_default_mentions >= 2 and (c.invariant or c.typevar == "TC")) or (c.typevar == "TC" and c.multi):
+                # several sources for one variable through an invariant container / a constrained variable: an
+                # "incompatible solution" error is allowed by the statement; only the result clause judges
+                expected = None
+            else:
+                expected = False
+            feat = f"{c.typevar}:passed{min(passed_mentions, 2)}+omitted-default{min(omitted_default_mentions, 2)}"
+            calls.append((f"{c.call_prefix}({', '.join(args + kwargs)})", expected,
+                          ("generic-gen", c.ret_desc, tuple(ty_kind(t) for _, t, _, _ in c.params), tuple(srcs), feat)))
+    return calls
+
+
+# ---------------------------------------------------------------------------
+# calls with a *-argument (kind "starcall"): positional parameters (required / with defaults / positional-only) and
+# optionally *rest are filled from explicit positionals plus a star item that pyanalyze expands element by element
+# (tuple / list display, short str / bytes / range) or summarises (str / bytes / range with >= 1000 items).
+
+SCALARS = [I, S, ty.Cls(bytes), F, BL, ty.OBJECT, ty.Union(I, NONE), ty.Union(I, S), ty.Union(S, NONE)]
+SCALARS_LIT = [ty.Lit(1), ty.Lit("a"), ty.Union(ty.Lit(0), ty.Lit(1))]
+LONG_STARS = [("range", "range(1000)"), ("range", "range(2000)"), ("str", "('x' * 1500)"), ("str", "('ab' * 600)"),
+              ("bytes", "(b'x' * 1200)"), ("range", "range(5, 1500)")]
+SHORT_STARS = [("str", "'a'"), ("str", "'ab'"), ("bytes", "b'a'"), ("bytes", "b'ab'"), ("range", "range(1)"),
+               ("range", "range(2)"), ("range", "range(3)"), ("tuple", "()"), ("list", "[]"), ("str", "''")]
+
+
+def gen_star_callable(rng, k: int) -> Callable_:
+    style = rng.randrange(2)
+    n = rng.randrange(1, 4)
+    lit_ok = rng.random() < 0.25
+    vocab = SCALARS + (SCALARS_LIT if lit_ok else [])
+    ptypes = [rng.choice(vocab) for _ in range(n)]
+    n_def = rng.choice([0, 1, 1, 2, 3])
+    n_def = min(n_def, n)
+    params = [(f"p{i}", t) for i, t in enumerate(ptypes)]
+    ret_ann, ret_expr = ret_for(rng, params, style)
+    parts, meta = [], []
+    for i, (p, t) in enumerate(params):
+        has_default = False
+        if i >= n - n_def:
+            inh = literal_items(t, rng, True, 3)
+            if inh:
+                has_default = True
+                parts.append(f"{p}: {ty.render(t, style)} = {inh[0].src}")
+        if not has_default:
+            if any(m[2] for m in meta):  # a required parameter cannot follow a defaulted one
+                inh = literal_items(t, rng, True, 3)
+                has_default = True
+                parts.append(f"{p}: {ty.render(t, style)} = {inh[0].src if inh else 'None'}")
+            else:
+                parts.append(f"{p}: {ty.render(t, style)}")
+        meta.append((p, t, has_default, False))
+    if rng.random() < 0.3:
+        parts.append("/")
+    star = None
+    if rng.random() < 0.7:
+        star = rng.choice(vocab)
+        parts.append(f"*rest: {ty.render(star, style)}")
+    lines = [f"def fs{k}({', '.join(parts)}) -> {ret_ann}:", f"    return {ret_expr}"]
+    c = Callable_("starcall", f"fs{k}", lines, f"fs{k}", meta, ret_ann, star)
+    c.long_ok = not any(t.kind == "Lit" or (t.kind == "Union" and any(a.kind == "Lit" for a in t.args)) for t in [*ptypes, *([star] if star else [])])
+    return c
+
+
+def gen_star_calls(rng, c: Callable_, n: int) -> list:
+    calls = []
+    ptypes = {p: t for p, t, _d, _k in c.params}
+    if c.star is not None:
+        ptypes["rest"] = c.star
+    slots = [t for _p, t, _d, _k in c.params]
+    for _ in range(n):
+        want_bad = rng.random() < 0.4
+        npre = rng.randrange(0, len(slots) + 1)
+        args, srcs = [], []
+
+        def slot_type(j):
+            return slots[j] if j < len(slots) else c.star
+
+        def pick_for(j, bad):
+            t = slot_type(j)
+            if t is None:
+                return None
+            items = literal_items(t, rng, not bad, 4) or literal_items(t, rng, True, 4)
+            return rng.choice(items) if items else None
+
+        bad_at = rng.randrange(0, len(slots) + 2) if want_bad else -1
+        ok = True
+        for j in range(npre):
+            it = pick_for(j, j == bad_at)
+            if it is None:
+                ok = False
+                break
+            args.append(it.src)
+            srcs.append(it.src)
+        if not ok:
+            continue
+        r = rng.random()
+        if c.star is not None and c.long_ok and r < 0.3:
+            form, src = rng.choice(LONG_STARS)
+            star_src, size = f"*{src}", "long"
+        elif r < 0.55:
+            form, src = rng.choice(SHORT_STARS)
+            star_src, size = f"*{src}", "short"
+        else:
+            m = rng.randrange(0, 3)
+            elems = []
+            for j in range(npre, npre + m):
+                it = pick_for(j, j == bad_at)
+                if it is None:
+                    break
+                elems.append(it.src)
+            form = rng.choice(["tuple", "list"])
+            inner = ", ".join(elems)
+            star_src = f"*({inner}{',' if len(elems) == 1 else ''})" if form == "tuple" else f"*[{inner}]"
+            size = "short"
+        args.append(star_src)
+        srcs.append(star_src)
+        if rng.random() < 0.2:
+            it = rng.choice(literal_items(rng.choice(SCALARS), rng, True, 4))
+            args.append(it.src)
+            srcs.append(it.src)
+        src = f"{c.call_prefix}({', '.join(args)})"
+        calls.append((src, BindOracle(c.name, ptypes), ("starcall", tuple(ty_kind(t) for t in slots), tuple(srcs), f"star-{size}-{form}")))
+    return calls
+
+
+def _class_based(t: Ty) -> bool:
+    """membership in t depends on the class of the value only"""
+    if t.kind in ("Cls", "Object", "NoneT"):
+        return True
+    return t.kind == "Union" and all(_class_based(a) for a in t.args)
+
+
+class BindOracle:
+    """Expectation decided at check time by CPython's own binder: the call's arguments are evaluated, bound with
+    inspect.signature(callee).bind, and every bound argument value is tested for membership in the declared type of the
+    parameter it landed in (defaults that the call leaves alone are not arguments)."""
+
+    def __init__(self, fname: str, ptypes: dict):
+        self.fname = fname
+        self.ptypes = ptypes
+
+    def __call__(self, src: str, ns):
+        """-> (expected True/False/None, feature string) or ("nobind", "")"""
+        import inspect
+
+        func = ns[self.fname]
+        inner = src[len(self.fname) + 1 : -1]
+        try:
+            a, k = eval(f"(lambda *a, **k: (a, k))({inner})", ns)
+            sig = inspect.signature(func)
+            bound = sig.bind(*a, **k)
+        except TypeError:
+            return "nobind", ""
+        verdicts = []
+        bad = set()
+        for pname, val in bound.arguments.items():
+            p = sig.parameters[pname]
+            t = self.ptypes.get(pname)
+            if t is None:
+                continue
+            vals = val if p.kind is p.VAR_POSITIONAL else (list(val.values()) if p.kind is p.VAR_KEYWORD else [val])
+            seen = set()
+            role = "rest" if p.kind is p.VAR_POSITIONAL else ("defaulted" if p.default is not p.empty else "required")
+            by_class = _class_based(t)
+            for x in vals:
+                try:
+                    hk = type(x) if by_class else (type(x), x)
+                    if hk in seen:
+                        continue
+                    seen.add(hk)
+                except TypeError:
+                    pass
+                m = ty.member(x, t)
+                verdicts.append(m)
+                if m is False:
+                    bad.add(role)
+        if any(m is None for m in verdicts):
+            return None, ""
+        return any(m is False for m in verdicts), "bad:" + "+".join(sorted(bad))
+
+    def to_json(self):
+        return {"fname": self.fname, "ptypes": {p: ty.render(t, 0) for p, t in self.ptypes.items()}}
+
+    @staticmethod
+    def from_json(j):
+        from vp.props.c03 import _ty_from_ast
+
+        return BindOracle(j["fname"], {p: _ty_from_ast(ast.parse(a, mode="eval").body) for p, a in j["ptypes"].items()})
+
+
+NEW_KINDS = ("generic-gen", "starcall", "new", "new+init")  # witnesses of these kinds carry their own expectation
+FEAT_KINDS = ("generic-gen", "starcall")
+
+
+def check_batch(ctx, callables, calls, head=None) -> None:
     lines = ["from vp.prelude import *", "import typing", GENERIC_DEFS]
     for c in callables:
         lines += c.def_lines
+    if head is not None:
+        lines = [head.rstrip("\n")]
     lines.append("def holder():")
     start = sum(l.count("\n") + 1 for l in lines)
     for src, _e, _d in calls:
@@ -350,6 +681,28 @@ def check_batch(ctx, callables, calls) -> None:
                 continue
             diagnosed = bool(ds)
             wit = {"source": source, "index": i, "call": src}
+            feat = ""
+            if desc[0] in NEW_KINDS:
+                feat = desc[-1] if desc[0] in FEAT_KINDS else ""
+                wit.update(kind=desc[0], feat=feat)
+                if isinstance(expected, BindOracle):
+                    wit["oracle"] = expected.to_json()
+                    expected, bad_roles = expected(src, ns)
+                    if expected == "nobind":
+                        ctx.count("calls_not_binding_skipped")
+                        continue
+                    if bad_roles:
+                        feat = f"{feat}|{bad_roles}"
+                    ctx.count("starcall_judged")
+                    if "star-long" in feat and expected is not None:
+                        ctx.count("starcall_long_judged")
+                        ctx.count("starcall_long_expect_error" if expected else "starcall_long_expect_clean")
+                    ctx.histo("starcall_forms", f"{feat}:{'error' if expected else 'clean'}")
+                elif desc[0] != "generic-gen":
+                    wit["expected"] = expected
+                else:
+                    wit["expected"] = expected
+                    ctx.histo("generic_gen_sources", f"{feat}:{'error' if expected else 'clean' if expected is False else 'unjudged'}")
             if expected is None:
                 ctx.count("membership_unknown")
             else:
@@ -359,7 +712,11 @@ def check_batch(ctx, callables, calls) -> None:
                 ctx.histo("kind_x_verdict", f"{desc[0]}:{'error' if expected else 'clean'}")
                 if diagnosed != expected:
                     direction = "missed" if expected else "spurious"
-                    key = f"{direction}|{desc[0]}|{classify_args(src, ns, ds)}"
+                    key = f"{direction}|{desc[0]}|{classify_args(src, ns, ds)}" + (f"|{feat}" if feat else "")
+                    if desc[0] == "starcall" and not expected and "star-long" in feat and _positional_after_star(st.value):
+                        # one mechanism: explicit positionals written after a summarised *-argument are merged into it,
+                        # so their types are reported against every parameter the *-argument may reach
+                        key = "spurious|starcall|positional-after-summarised-star-merged-into-it"
                     what = (f"`{src}`: an argument {'is not' if expected else 'is'} a member of its parameter type, pyanalyze reports "
                             f"{[d.short() for d in ds][:1] if ds else 'nothing'}\n{definition_of(source, src)}")
                     ctx.violation(key, what, wit)
@@ -371,8 +728,14 @@ def check_batch(ctx, callables, calls) -> None:
                     t = ty.from_value(inferred)
                     m = ty.member(result, t)
                     ctx.count("results_checked")
+                    if desc[0] == "generic-gen":
+                        ctx.count("generic_gen_results_checked")
+                        if "omitted-default0" not in feat and "passed0" not in feat:
+                            ctx.count("generic_gen_results_with_omitted_default")
+                    elif desc[0] == "starcall":
+                        ctx.count("starcall_results_checked")
                     if m is False:
-                        key = f"result-not-in-inferred|{desc[0]}|{type(result).__name__} not in {tdesc(t)}"
+                        key = f"result-not-in-inferred|{desc[0]}|{type(result).__name__} not in {tdesc(t)}" + (f"|{feat}" if feat else "")
                         if _equal_args_of_different_type(st.value, ns):
                             key = "result-not-in-inferred|equal-literal-arguments-of-different-type-merged"
                         ctx.violation(key, f"`{src}` returned {result!r} but pyanalyze inferred {inferred}\n{definition_of(source, src)}", wit)
@@ -382,6 +745,16 @@ def check_batch(ctx, callables, calls) -> None:
             ctx.sample({"call": calls[0][0], "expected_error": calls[0][1]})
     finally:
         harness.forget_module(res.module)
+
+
+def _positional_after_star(call: ast.Call) -> bool:
+    seen = False
+    for a in call.args:
+        if isinstance(a, ast.Starred):
+            seen = True
+        elif seen:
+            return True
+    return False
 
 
 def _equal_args_of_different_type(call: ast.Call, ns) -> bool:
@@ -456,6 +829,22 @@ def shard(ctx) -> None:
     gcalls = gen_generic_calls(rng, ctx.pick(500, 4000))
     for i in range(0, len(gcalls), BATCH):
         check_batch(ctx, [], gcalls[i : i + BATCH])
+    # generated generics (type variable shared between passed and defaulted parameters) and calls with a *-argument
+    for gen_c, gen_calls_, ncall2, per2 in (
+        (gen_generic_callable, gen_generic_gen_calls, ctx.pick(45, 500), ctx.pick(5, 6)),
+        (gen_star_callable, gen_star_calls, ctx.pick(40, 500), ctx.pick(6, 8)),
+    ):
+        callables, calls = [], []
+        for _ in range(ncall2):
+            c = gen_c(rng, k)
+            k += 1
+            callables.append(c)
+            calls.extend(gen_calls_(rng, c, per2))
+            if len(calls) >= BATCH:
+                check_batch(ctx, callables, calls)
+                callables, calls = [], []
+        if calls:
+            check_batch(ctx, callables, calls)
 
 
 def replay(witness):
@@ -468,6 +857,15 @@ def replay(witness):
     # re-run only the recorded call line: rebuild the module with that single call
     call_src = witness.get("call") or ast.get_source_segment(source, holder.body[witness["index"]].value)
     head = source[: source.index("def holder():")]
+    if witness.get("kind") in NEW_KINDS:
+        if witness["kind"] == "starcall":
+            expected = BindOracle.from_json(witness["oracle"])
+        else:
+            expected = witness.get("expected")
+        check_batch(ctx, [], [(call_src, expected, (witness["kind"], witness["feat"]))], head=head)
+        for key, lst in ctx.violations.items():
+            return key, lst[0]["what"]
+        return None
     # recompute the expectation from scratch is not possible without the generator state; re-check both clauses
     # by running the batch machinery on a one-call module with the verdict derived from membership of each argument.
     return _replay_single(ctx, head, call_src)
